@@ -1421,8 +1421,10 @@ class Collocator:
         intervals = self._get_intervals(primary_time, secondary_time)
 
         # Check whether the time differences are less than the temporal
-        # boundary:
-        passed_time_check = intervals < max_interval
+        # boundary (with their full resolution, `intervals` are truncated to
+        # whole seconds):
+        passed_time_check = np.abs(primary_time - secondary_time) \
+            < pd.Timedelta(max_interval).to_timedelta64()
 
         return passed_time_check, intervals[passed_time_check]
 
